@@ -41,10 +41,26 @@ def gotype(t):
     if k == "ext":
         return "other." + t[1]
     if k == "struct":
-        return t[1] + (t[2] if len(t) > 2 else "")
+        return t[1] + (targs_text(t[2]) if len(t) > 2 else "")
     if k == "tparam":
         return t[1]
+    if k == "bytes":
+        return "[]byte"
+    if k == "emb":
+        return t[1]
     raise ValueError(t)
+
+
+def targs_text(ta):
+    """type arguments of an instantiated generic struct: a tuple of type expressions"""
+    return "[" + ", ".join(gotype(x) for x in ta) + "]"
+
+
+def inst_suffix(ta):
+    """suffix of the reference function names of an instantiation; the all-int instantiation has none"""
+    if all(x == ("int",) for x in ta):
+        return ""
+    return "__" + "_".join(gotype(x).replace("[]", "s").replace(".", "").replace("[", "").replace("]", "").replace(",", "").replace(" ", "").replace("*", "p") for x in ta)
 
 
 def supported(cls, t, structs):
@@ -99,19 +115,21 @@ def ref(cls, t, C):
             if cls == "clone":
                 return "clone.GoMap(clone.Given[string](), %s)" % inner
         return "%s.%s(%s)" % (cls, {"slice": "Slice", "seq": "Seq", "opt": "Option"}[k], inner)
+    if k == "bytes":
+        return {"eq": "eq.Bytes", "hash": "hash.Bytes", "clone": "clone.Slice(clone.Given[byte]())", "ord": "ord.Slice(ord.Given[byte]())"}[cls]
     if k == "struct":
-        n = t[1]
-        targs = t[2] if len(t) > 2 else ""
+        n = t[1] + (inst_suffix(t[2]) if len(t) > 2 else "")
+        targs = targs_text(t[2]) if len(t) > 2 else ""
         # (reference functions exist for the instantiation at int only and carry no type arguments in their names)
         if cls == "eq":
             return "eq.New(vRefEq_%s)" % n
         if cls == "ord":
             return "ord.New(eq.New(vRefEq_%s), vRefLess_%s)" % (n, n)
         if cls == "hash":
-            return "hash.New(eq.New(vRefEq_%s), func(%s%s) uint32 { return 0 })" % (n, n, targs)
+            return "hash.New(eq.New(vRefEq_%s), func(%s%s) uint32 { return 0 })" % (n, t[1], targs)
         if cls == "monoid":
             return "monoid.New(vRefEmpty_%s, vRefCombine_%s)" % (n, n)
-        return "clone.Given[%s%s]()" % (n, targs)
+        return "clone.Given[%s%s]()" % (t[1], targs)
     base = {
         "eq": {"int": "eq.Given[int]()", "string": "eq.String", "bool": "eq.Given[bool]()", "dur": "eq.Given[time.Duration]()"},
         "ord": {"int": "ord.Given[int]()", "string": "ord.Given[string]()", "dur": "ord.Given[time.Duration]()"},
@@ -221,6 +239,8 @@ var vUsed = map[string]int{}
 
 func vHit(n string) { vUsed[n]++ }
 
+type Empty struct{}
+
 var MonoidInt fp.Monoid[int] = monoid.New(func() int { return 0 }, func(a, b int) int { vHit("MonoidInt"); return a + b })
 '''
 
@@ -291,6 +311,8 @@ def gen_structs(rng, n):
 
 
 def uses_tparam(t):
+    if t[0] == "struct" and len(t) > 2:
+        return any(uses_tparam(x) for x in t[2])
     return t[0] == "tparam" or (len(t) > 1 and isinstance(t[1], tuple) and uses_tparam(t[1]))
 
 
@@ -324,9 +346,14 @@ def special_structs():
     # type parameters used in another order than declared
     s["Rev"] = dict(name="Rev", fields=[("right", ("tparam", "B")), ("left", ("tparam", "A"))], classes=["eq", "ord", "clone"], value=True, tparams=["A", "B"])
     # a generic struct instantiated inside another struct
-    s["UsesPair"] = dict(name="UsesPair", fields=[("n", ("int",)), ("p", ("struct", "Pair", "[int, int]")), ("ps", ("slice", ("struct", "Pair", "[int, int]"))), ("r", ("struct", "Rev", "[int, int]"))],
+    II, IS, SI = (("int",), ("int",)), (("int",), ("string",)), (("string",), ("int",))
+    s["UsesPair"] = dict(name="UsesPair", fields=[("n", ("int",)), ("p", ("struct", "Pair", II)), ("ps", ("slice", ("struct", "Pair", SI))), ("r", ("struct", "Rev", IS)),
+                                                  ("q", ("opt", ("struct", "Rev", (("named", "MyInt"), ("string",)))))],
                          classes=["eq", "ord", "clone"], value=True, tparams=[])
-    return s, ["Node", "Tree", "Big", "Pair", "Phantom", "Leaf", "Holder", "Prec", "PrecM", "W21", "W22", "P22", "Mixed", "Holder2", "Rev", "UsesPair"]
+    # an empty embedded struct is no field of the representation; []byte has instances of its own
+    s["WithEmpty"] = dict(name="WithEmpty", fields=[("Empty", ("emb", "Empty")), ("a", ("int",)), ("b", ("string",))], classes=["eq", "ord", "hash", "clone"], value=True, tparams=[])
+    s["Blob"] = dict(name="Blob", fields=[("data", ("bytes",)), ("n", ("int",)), ("chunks", ("slice", ("bytes",)))], classes=["eq", "hash", "clone"], value=True, tparams=[])
+    return s, ["Node", "Tree", "Big", "Pair", "Phantom", "Leaf", "Holder", "Prec", "PrecM", "W21", "W22", "P22", "Mixed", "Holder2", "Rev", "UsesPair", "WithEmpty", "Blob"]
 
 
 def override_structs():
@@ -363,12 +390,34 @@ def uses_tparam_named(t, p):
     return (t[0] == "tparam" and t[1] == p) or (len(t) > 1 and isinstance(t[1], tuple) and uses_tparam_named(t[1], p))
 
 
-def subst(t, tp):
+def subst(t, tp, mapping=None):
+    """replace type parameters: by mapping (name -> type) when given, by int otherwise"""
     if t[0] == "tparam":
-        return ("int",)
+        return (mapping or {}).get(t[1], ("int",))
+    if t[0] == "struct" and len(t) > 2:
+        return (t[0], t[1], tuple(subst(x, tp, mapping) for x in t[2]))
     if len(t) > 1 and isinstance(t[1], tuple):
-        return (t[0], subst(t[1], tp))
+        return (t[0], subst(t[1], tp, mapping))
     return t
+
+
+def instantiations(structs, order):
+    """generic struct -> the type-argument tuples it is used with (always the all-int one, plus those in field types)"""
+    inst = {n: [tuple(("int",) for _ in structs[n]["tparams"])] for n in order if structs[n]["tparams"]}
+
+    def visit(t):
+        if t[0] == "struct" and len(t) > 2:
+            if t[2] not in inst.setdefault(t[1], []):
+                inst[t[1]].append(t[2])
+            for x in t[2]:
+                visit(x)
+        elif len(t) > 1 and isinstance(t[1], tuple):
+            visit(t[1])
+    for n in order:
+        for _, t in structs[n]["fields"]:
+            if not uses_tparam(t):
+                visit(t)
+    return inst
 
 
 OVER_SLICE = '''
@@ -416,6 +465,7 @@ def _go_source(pkg, structs, order):
            SILENT % dict(N="MyInt", Q="MyInt") + SILENT % dict(N="Code", Q="other.Code") + SILENT % dict(N="Both", Q="other.Both"),
            "var vSMonoidInt fp.Monoid[int] = monoid.New(func() int { return 0 }, func(a, b int) int { return a + b })\n", SILENT_OVER]
     inits = []
+    insts = instantiations(structs, order)
     for name in order:
         st = structs[name]
         tp = ""
@@ -425,32 +475,37 @@ def _go_source(pkg, structs, order):
             out.append("// @fp.Value")
         out.append("type %s%s struct {" % (name, tp))
         for fn, t in st["fields"]:
-            out.append("\t%s %s" % (fn, gotype(t)))
+            out.append("\t%s %s" % (fn, gotype(t)) if t[0] != "emb" else "\t%s" % t[1])
         out.append("}\n")
         targs_decl = ("[" + ", ".join("any" for _ in st["tparams"]) + "]") if st["tparams"] else ""
         for cls in st["classes"]:
             flag = "(recursive=true)" if st.get("recursive_flag") else ""
             out.append("// @fp.Derive%s\nvar _ %s.Derives[fp.%s[%s%s]]\n" % (flag, cls, TC[cls], name, targs_decl))
-        # references (for the instantiation at int when generic)
-        inst = [(fn, subst(t, st["tparams"])) for fn, t in st["fields"]]
-        targs = ("[" + ", ".join("int" for _ in st["tparams"]) + "]") if st["tparams"] else ""
-        S = name + targs
-        rn = name  # reference function names carry no type arguments: generic structs are only instantiated at int
+        # references: one set per instantiation in use (the all-int one carries no suffix and is the one that is driven)
         all_cls = st["classes"] if not st.get("nodirective") else ["eq", "clone"]
         need_eq = any(c in all_cls for c in ("eq", "ord", "hash")) or st.get("nodirective")
-        if need_eq:
-            conj = " && ".join("(%s).Eqv(a.%s, b.%s)" % (ref("eq", t, None), fn, fn) for fn, t in inst)
-            reg.append("func vRefEq_%s(a, b %s) bool {\n\treturn %s\n}\n" % (rn, S, conj))
-            vec = ", ".join("(%s).Eqv(a.%s, b.%s)" % (ref("eq", t, None), fn, fn) for fn, t in inst)
-            reg.append("func vRefEqVec_%s(a, b %s) []bool {\n\treturn []bool{%s}\n}\n" % (rn, S, vec))
-        if "ord" in all_cls:
-            body = "".join("\tif o := (%s); !o.Eqv(a.%s, b.%s) {\n\t\treturn o.Less(a.%s, b.%s)\n\t}\n" % (ref("ord", t, None), fn, fn, fn, fn) for fn, t in inst)
-            reg.append("func vRefLess_%s(a, b %s) bool {\n%s\treturn false\n}\n" % (rn, S, body))
-            vec = ", ".join("(%s).Less(a.%s, b.%s)" % (ref("ord", t, None), fn, fn) for fn, t in inst)
-            reg.append("func vRefLessVec_%s(a, b %s) []bool {\n\treturn []bool{%s}\n}\n" % (rn, S, vec))
-        if "monoid" in all_cls:
-            reg.append("func vRefEmpty_%s() %s {\n\treturn %s{%s}\n}\n" % (rn, S, S, ", ".join("%s: (%s).Empty()" % (fn, ref("monoid", t, None)) for fn, t in inst)))
-            reg.append("func vRefCombine_%s(a, b %s) %s {\n\treturn %s{%s}\n}\n" % (rn, S, S, S, ", ".join("%s: (%s).Combine(a.%s, b.%s)" % (fn, ref("monoid", t, None), fn, fn) for fn, t in inst)))
+        for ta in (insts.get(name) or [()]):
+            mapping = dict(zip(st["tparams"], ta))
+            finst = [(fn, subst(t, st["tparams"], mapping)) for fn, t in st["fields"] if t[0] != "emb"]
+            S = name + (targs_text(ta) if ta else "")
+            rn = name + (inst_suffix(ta) if ta else "")
+            if need_eq:
+                conj = " && ".join("(%s).Eqv(a.%s, b.%s)" % (ref("eq", t, None), fn, fn) for fn, t in finst)
+                reg.append("func vRefEq_%s(a, b %s) bool {\n\treturn %s\n}\n" % (rn, S, conj))
+                vec = ", ".join("(%s).Eqv(a.%s, b.%s)" % (ref("eq", t, None), fn, fn) for fn, t in finst)
+                reg.append("func vRefEqVec_%s(a, b %s) []bool {\n\treturn []bool{%s}\n}\n" % (rn, S, vec))
+            if "ord" in all_cls:
+                body = "".join("\tif o := (%s); !o.Eqv(a.%s, b.%s) {\n\t\treturn o.Less(a.%s, b.%s)\n\t}\n" % (ref("ord", t, None), fn, fn, fn, fn) for fn, t in finst)
+                reg.append("func vRefLess_%s(a, b %s) bool {\n%s\treturn false\n}\n" % (rn, S, body))
+                vec = ", ".join("(%s).Less(a.%s, b.%s)" % (ref("ord", t, None), fn, fn) for fn, t in finst)
+                reg.append("func vRefLessVec_%s(a, b %s) []bool {\n\treturn []bool{%s}\n}\n" % (rn, S, vec))
+            if "monoid" in all_cls:
+                reg.append("func vRefEmpty_%s() %s {\n\treturn %s{%s}\n}\n" % (rn, S, S, ", ".join("%s: (%s).Empty()" % (fn, ref("monoid", t, None)) for fn, t in finst)))
+                reg.append("func vRefCombine_%s(a, b %s) %s {\n\treturn %s{%s}\n}\n" % (rn, S, S, S, ", ".join("%s: (%s).Combine(a.%s, b.%s)" % (fn, ref("monoid", t, None), fn, fn) for fn, t in finst)))
+        inst = [(fn, subst(t, st["tparams"])) for fn, t in st["fields"] if t[0] != "emb"]
+        targs = ("[" + ", ".join("int" for _ in st["tparams"]) + "]") if st["tparams"] else ""
+        S = name + targs
+        rn = name
         for cls in st["classes"]:
             T = TC[cls]
             ta, ia = inst_args(st, cls, None)
@@ -480,9 +535,10 @@ def cands_deep(cls, t, structs, seen):
         if t[1] in seen:
             return []
         st = structs[t[1]]
+        mapping = dict(zip(st["tparams"], t[2])) if len(t) > 2 else None
         out = []
         for _, ft in st["fields"]:
-            out += cands_deep(cls, subst(ft, st["tparams"]), structs, seen | {t[1]})
+            out += cands_deep(cls, subst(ft, st["tparams"], mapping), structs, seen | {t[1]})
         return out
     if k in ("slice", "seq", "opt", "ptr", "map"):
         if cls == "monoid" and k in ("slice", "seq", "map"):
